@@ -199,6 +199,7 @@ static void gen_constructor(plan_t *p, rng_t *r, int slot, int isnew, int hard, 
         { int trans = o->na == 2 && nlines > 1 && !hard && rng_chance(r, 1, 2), nf = trans ? rng_range(r, 0, 2) : rng_range(r, 0, 8); static const int lims[] = { 1, 2, 3, 100, 1000, 4094, 4095, 4096 };
           for (int i = 0; i < nf; i++) op_fault(o, rng_chance(r, 1, 3) ? FAULT(FC_READ, FO_FULL, 0) : FAULT(FC_READ, FO_SHORT, lims[rng_below(r, 8)]));
           if (hard && rng_chance(r, 1, 3)) op_fault(o, FAULT(FC_READ, FO_EIO, 0));       /* the stream fails after nf reads */
+          else if (o->na == 2 && nlines == 1 && !hard && rng_chance(r, 1, 3)) { op_fault(o, FAULT(FC_READ, FO_EAGAIN, 0)); }      /* a single construction from a source that has nothing more to give just now, after 0..8 reads (some of them short: part of the line is there already) */
           else if (trans) { op_fault(o, FAULT(FC_READ, FO_ETRANSIENT, 0)); if (rng_chance(r, 1, 2)) op_fault(o, FAULT(FC_READ, FO_SHORT, lims[rng_below(r, 8)])); }      /* ... or one read fails and the next ones work: the caller asks again, on the same stream */
         }
     } else {
